@@ -26,7 +26,7 @@ theorem read_union_eq (cfg : Cfg) (al : Bool) (fs : Fields) (ctx : Ctx) (data : 
     read cfg (.union al fs) ctx data pos =
       match readMembers cfg fs [] (sread data pos sz) with
       | .error e => .error e
-      | .ok vs => .ok (.union (sread data pos sz) vs, pos + (sread data pos sz).length) := by
+      | .ok vs => .ok (.union (sread data pos sz) vs, pos + sz) := by
   rw [read]
   simp only [hsz]
   rfl
